@@ -3,6 +3,7 @@ import gc
 import io
 import os
 import pickle
+import subprocess
 import shutil
 import tempfile
 import numpy as np
@@ -196,6 +197,52 @@ def _run_case(ctx, tmp, case_id, elems, stop, k, level, target, exc):
     return case, dict(demands=demands, got=len(got), back=len(back), raised=raised is not None, drawn=src.i)
 
 
+def reuse_and_environment_cases(ctx, tmp):
+    from generatorpipeline.streamfunctions import savestream, loadstream
+    rng = ctx.rng
+    # (a) one file object used for two recordings in a row: the archive that is replayed is the second recording
+    for kind in ('bytesio', 'fileobj'):
+        n1, n2 = rng.choice([20, 40]), rng.choice([1, 3])
+        first = [('first', i, 'x' * 50) for i in range(n1)]
+        second = [('second', i) for i in range(n2)]
+        f = io.BytesIO() if kind == 'bytesio' else open(os.path.join(tmp, 'reused.zip'), 'w+b')
+        case = dict(reused_file_object=kind, first_recording=n1, second_recording=n2)
+        ctx.case(('reuse', kind, n1, n2), True, sample=case)
+        ctx.count('reused_file_object')
+        try:
+            list(savestream(iter(first), f, compresslevel=rng.randint(0, 9)))
+            got = list(savestream(iter(second), f, compresslevel=rng.randint(0, 9)))
+            f.seek(0)
+            back = list(loadstream(f))
+        except Exception as e:  # noqa
+            ctx.fail('archive-unreadable-after-stop:reuse', 'a second, shorter recording into the same file object cannot be replayed: %r' % (e,), case)
+            continue
+        finally:
+            if kind == 'fileobj':
+                f.close()
+        if got != second or back != second:
+            ctx.fail('archive-replay-differs:reuse', 'second recording %s replays as %s' % (second, back[:5]), case)
+    # (b) the recording process runs with assertions compiled away (python -O / -OO)
+    for flag in ('-O', '-OO'):
+        path = os.path.join(tmp, 'opt%s.zip' % flag.strip('-'))
+        elems = [None, 0, 'text', [1, 2, 3], b'', {'k': (1, 2)}]
+        script = ('import sys\nsys.path.insert(0, %r)\nfrom generatorpipeline.streamfunctions import savestream\n'
+                  'got = list(savestream(iter(%r), %r, compresslevel=3))\nassert_free = True\nprint(len(got))\n' % (core.REPO, elems, path))
+        case = dict(recorded_by='python ' + flag, n=len(elems))
+        ctx.case(('optimised', flag), True, sample=case)
+        ctx.count('optimised_interpreter')
+        r = subprocess.run([core.PY, flag, '-c', script], capture_output=True, text=True, timeout=120, env=dict(os.environ, PYTHONDONTWRITEBYTECODE='1'))
+        if r.returncode != 0 or r.stdout.strip() != str(len(elems)):
+            raise core.InfraError('recording under %s failed: %s' % (flag, (r.stdout + r.stderr)[-500:]))
+        try:
+            back = list(loadstream(path))
+        except Exception as e:  # noqa
+            ctx.fail('archive-unreadable-after-stop:optimised', 'an archive recorded under python %s cannot be replayed: %r' % (flag, e), case)
+            continue
+        if not (len(back) == len(elems) and all(same_after_pickle(a, b) for a, b in zip(back, elems))):
+            ctx.fail('archive-replay-differs:optimised', 'an archive recorded under python %s replays as %s' % (flag, back), case)
+
+
 def check(ctx):
     rng = ctx.rng
     tmp = tempfile.mkdtemp(prefix='verif_c18_')
@@ -224,6 +271,7 @@ def check(ctx):
                 if r is not None:
                     lines.append('strm.save %d %s | %s' % (n, 'e1' if stop == 'srcfail' else '-', ' '.join(r['demands'])))
                     metas.append((case, r))
+        reuse_and_environment_cases(ctx, tmp)
         # elements whose pickled size sits on / next to powers of two
         targets = [m * 2 ** p + d for p in (8, 10, 12, 14, 16, 17, 20) for m in (1, 3) for d in (-1, 0, 1, 2)]
         rng.shuffle(targets)
